@@ -214,6 +214,11 @@ def core_programs():
         for b in bodies:
             P.append([while_(c, b), M])
             P.append([M, while_(c, b), M, A1])
+    # a loop whose condition is a build-time constant that is false: never entered, costs the clock of the loop entry (not placed at the
+    # very start of the process, where the emitted machine and R treat the first wait differently: not judged)
+    for b in ([M], [M, A0], [A0, M]):
+        P.append([M, while_("0 > 0", b), M, A1])
+        P.append([M, A0, while_("1 > 2", b), M])
     # nested loops
     P.append([M, while_("self.in0", [M, while_("self.in1", [M, A0 if False else AT]), M])])
     P.append([while_("True", [M, A0, while_("self.in1", [vinc(), if_("v == 2", [BREAK])]), M, if_("self.in2", [BREAK])]), M])
